@@ -433,9 +433,76 @@ class ListMapModel(Model):
         return out
 
 
+class VariantModel(ListMapModel):
+    """The same models rendered differently: `~const` writes non-negative list indices as literals (the compiler then knows the index),
+    `~int` gives the maps int keys 1 / 2 instead of "a" / "b" (a constant numeric key on a map looks like a list index), `@fn` performs
+    every operation inside a closure that refers to the containers as outer variables."""
+    name = "lists-and-maps"
+    VARIANTS = ["ints~const", "maps~int", "ints@fn", "ints~const@fn", "maps@fn", "maps~int@fn", "nested@fn", "strs@fn"]
+    KEYS = {"a": "1", "b": "2"}
+
+    def templates(self, tier):
+        return ListMapModel.templates(self, tier) + self.VARIANTS
+
+    def depth_of(self, tpl, depth):
+        if tpl in ListMapModel.templates(self, ""):
+            return depth
+        return max(2, depth - (2 if "@fn" in tpl else 1))
+
+    @staticmethod
+    def base(tpl):
+        return tpl.split("@")[0].split("~")[0]
+
+    def _keys(self, tpl, lines):
+        if "~int" not in tpl:
+            return lines
+        return [l.replace('"a"', "1").replace('"b"', "2") for l in lines]
+
+    def init(self, tpl):
+        return ListMapModel.init(self, self.base(tpl))
+
+    def canon(self, tpl, st):
+        return ListMapModel.canon(self, self.base(tpl), st)
+
+    def ops(self, tpl, st):
+        return ListMapModel.ops(self, self.base(tpl), st)
+
+    def dump(self, tpl, st):
+        return self._keys(tpl, ListMapModel.dump(self, self.base(tpl), st))
+
+    def apply(self, tpl, st, op):
+        obs, fail = ListMapModel.apply(self, self.base(tpl), st, op)
+        return self._keys(tpl, obs), fail
+
+    def prelude(self, tpl):
+        p = ListMapModel.prelude(self, self.base(tpl))
+        if "~int" in tpl:
+            p = p.replace("map[str, int]", "map[int, int]").replace('"a"', "1").replace('"b"', "2")
+        return p
+
+    def op_src(self, tpl, op, k_):
+        src = ListMapModel.op_src(self, self.base(tpl), op, k_)
+        names = sorted(self.init(tpl))
+        dump = "".join(f"print {n}\n" for n in names)
+        assert src.endswith(dump)
+        body = src[:len(src) - len(dump)]
+        if "~int" in tpl:
+            body = body.replace("map[str, int]", "map[int, int]").replace('"a"', "1").replace('"b"', "2")
+        if "~const" in tpl:
+            # `ixK = 2` + `... l1[ixK] ...`  ->  `... l1[2] ...` for non-negative indices
+            m = re.match(r"^(ix\d+) = (\d+)\n", body)
+            if m:
+                body = re.sub(r"\b" + m.group(1) + r"\b", m.group(2), body[m.end():])
+        if "@fn" in tpl and not re.match(r"^[a-z][a-z0-9]* = ", body.split("\n")[-2] if body.count("\n") > 1 else body):
+            # operations that re-bind a container variable stay at module level (a plain assignment inside a function would declare a local)
+            inner = "".join("\t" + l + "\n" for l in body.rstrip("\n").split("\n"))
+            body = f"w{k_} = fn() {{\n{inner}}}\nw{k_}()\n"
+        return body + dump
+
+
 class C13(EHistCheck):
     id = "C13"
-    model = ListMapModel()
+    model = VariantModel()
     quick_depth = 4
     thorough_depth = 7
     chunksize = 16
@@ -447,7 +514,9 @@ class C13(EHistCheck):
             "map, filter, index_of, len, ==, to_str concatenation; maps: literal, read, index assignment, op-assignment, replace, remove, "
             "contains_key, len, keys, values, pairs, clear, clone.  Values in {0,1,2}, list length capped at 3 by the alphabet.  States are "
             "de-duplicated on the canonical model heap (entities renamed by first reachability, map entries sorted); every transition is "
-            "executed on the real CLI along the shortest history reaching its source state, every step printing its result and all containers.")
+            "executed on the real CLI along the shortest history reaching its source state, every step printing its result and all containers.  Eight variant "
+            "templates repeat the search one level shallower with literal list indices, int-keyed maps (constant numeric keys) and with every operation "
+            "performed inside a closure that refers to the containers as outer variables.")
     assumptions = ["map-derived output is compared as sorted multisets", "an out-of-range index / removal must stop the program (any non-zero exit)",
                    "clone is shallow (nested lists stay shared), as the language documents"]
 
